@@ -38,11 +38,24 @@ impl SchemeSpec {
                 b.add_function(*f, seams::HookedFn(seams::function_def(f))).expect("function");
             }
         }
-        for (ty, kind) in &self.lists {
+        for (i, (ty, kind)) in self.lists.iter().enumerate() {
             match kind {
                 ListKind::Set => b.add_list(ty.to_type(), SetListDef { ty: ty.clone() }).expect("list"),
                 ListKind::Always => b.add_list(ty.to_type(), AlwaysList {}).expect("list"),
                 ListKind::Never => b.add_list(ty.to_type(), NeverList {}).expect("list"),
+            }
+            // a refused duplicate registration (part of real builder histories) must leave the builder as it was;
+            // which lists get one is a function of the spec, so a twin scheme gets the same ones
+            if (i + self.fields.len() + self.lists.len()) % 3 == 0 {
+                if b.add_list(ty.to_type(), NeverList {}).is_ok() {
+                    panic!("a second list for {:?} was accepted", ty);
+                }
+                // and the same for a field
+                if let Some((name, fty, _)) = self.fields.first() {
+                    if b.add_field(name, fty.to_type()).is_ok() {
+                        panic!("a second field named {name} was accepted");
+                    }
+                }
             }
         }
         b.set_nil_not_equal_behavior(self.nil_ne);
